@@ -23,6 +23,15 @@ func genC05(t *rapid.T) hx.SessionCase {
 	if lit := rapid.SampledFrom([]string{"", "", "", "***DVD***", "***PS3***"}).Draw(t, "literal-prefix-dir"); lit != "" {
 		tree.Children = append(tree.Children, hx.Dir(lit, hx.Dir("GAME", hx.File("Y.BIN", 10, 79))))
 	}
+	// symbolic links as targets of the mutating requests: to a directory, to a file, to nothing (a link is no
+	// directory: DELETE removes the link itself, RMDIR refuses it, whatever it points to)
+	if rapid.IntRange(0, 2).Draw(t, "links") > 0 {
+		for _, l := range [][2]string{{"ln_dir", "GAME"}, {"ln_file", "PS3ISO/g.iso"}, {"ln_gone", "nothing-here"}, {"ln_dir2", "PS3ISO"}} {
+			if rapid.IntRange(0, 2).Draw(t, "link-"+l[0]) > 0 {
+				tree.Children = append(tree.Children, hx.Link(l[0], l[1]))
+			}
+		}
+	}
 	pool := hx.PoolOf(tree)
 	var reqs []hx.Req
 	n := rapid.IntRange(2, 30).Draw(t, "nreq")
@@ -106,10 +115,13 @@ func genC05(t *rapid.T) hx.SessionCase {
 			uploaded = append(uploaded, p)
 		case 3:
 			reqs = append(reqs, hx.Req{Op: "WRITE", N: uint32(rapid.SampledFrom([]int{0, 5, 70000}).Draw(t, l+"-wn")), Seed: 99})
-		case 4:
-			reqs = append(reqs, hx.Req{Op: "DELETE", Path: hx.BStr(hx.GenInsidePath(t, pool, l))})
-		case 5:
-			reqs = append(reqs, hx.Req{Op: "RMDIR", Path: hx.BStr(hx.GenInsidePath(t, pool, l))})
+		case 4, 5:
+			op := map[int]string{4: "DELETE", 5: "RMDIR"}[rapid.IntRange(4, 5).Draw(t, l+"-rmop")]
+			p := hx.GenInsidePath(t, pool, l)
+			if len(pool.Links) > 0 && rapid.IntRange(0, 2).Draw(t, l+"-rmlink") == 0 {
+				p = "/" + rapid.SampledFrom(pool.Links).Draw(t, l+"-rml")
+			}
+			reqs = append(reqs, hx.Req{Op: op, Path: hx.BStr(p)})
 		case 6:
 			p := hx.GenInsidePath(t, pool, l)
 			if rapid.Bool().Draw(t, l+"-new") {
@@ -170,6 +182,10 @@ func c05Classify(c hx.SessionCase, st *hx.Stats) {
 			}
 		case "DELETE", "MKDIR", "RMDIR":
 			if stateChanged {
+				nt = true
+			}
+			if strings.HasPrefix(string(r.Path), "/ln_") && r.Op != "MKDIR" {
+				st.Label("DELETE/RMDIR aimed at a symbolic link (to a directory, a file, nothing)")
 				nt = true
 			}
 		}
